@@ -435,7 +435,12 @@ fn inject(rng: &mut Rng, p: &Program, rule: usize) -> Option<Injected> {
                 _ => vec!["scan \"abc\" {".into(), format!("  \"{}\" {{", rx), "    print zz_undef_in_arm".into(), "  }".into(), "}".into()],
             }
         }
-        _ => match rng.below(9) {   // benign neighbours: no violation
+        _ => match rng.below(11) {   // benign neighbours: no violation
+            9 => { sub = "keyword-prefixed-names-in-conditions".into();
+                   let n1 = *rng.pick(&["some1", "some-flag", "something", "some_x", "some2nd"]); let n2 = *rng.pick(&["none2", "none-missing", "none_left", "nonempty", "none9"]);
+                   vec![format!("let {} = #true", n1), format!("let {} = #false", n2), format!("if {} {{", n1), "  print 1".into(), format!("}} elif #true, {} {{", n2), "  print 2".into(), "}".into()] }
+            10 => { sub = "keyword-prefixed-names".into();
+                   sv(&["let letter = 1", "let nodes = [letter]", "for forx in nodes {", "  let edge-count = forx", "  print edge-count, letter", "}", "let ifx = #true", "if ifx {", "  print 1", "}"]) }
             0 => { sub = "shadow-in-inner-block".into(); sv(&["let zz_s = 1", "if #true {", "  let zz_s = 2", "  print zz_s", "}", "print zz_s"]) }
             1 => { sub = "set-var-from-inner".into(); sv(&["var zz_s = 1", "for zw7 in [1] {", "  if #true {", "    set zz_s = [2]", "  }", "}", "print zz_s"]) }
             2 => { sub = "word-boundary-regex".into(); let rx = rng.pick(NON_NULLABLE_POOL).to_string(); vec!["scan \"abc\" {".into(), format!("  \"{}\" {{", rx), "    print 1".into(), "  }".into(), "}".into()] }
